@@ -17,6 +17,7 @@
 (*   usaved   the `config_was_locked` locals of the open unlock_config()s   *)
 (*   interactive _INTERACTIVE_MODE                                          *)
 (*   singles  _SINGLETONS        set of [key, obj]                          *)
+(*   imports  _IMPORTS           set of module names recorded by parses     *)
 (*   consts   _CONSTANTS         set of [name, val] (gin.REQUIRED implicit) *)
 (*   hooks    _FINALIZE_HOOKS    user hooks (sequence of hook descriptors)  *)
 (*   out      what the last public call returned / raised / delivered      *)
@@ -56,6 +57,10 @@ CONSTANTS
   CallsWithReq, \* whether Call explores gin.REQUIRED markers passed by the caller
   DevKwEval     \* TRUE models the pre-fix behaviour F6 (keyword-overridden refs evaluated)
 
+\* modules a config text may import (real, side-effect free standard modules) and keys of directly built singletons
+ImportModules == {"colorsys", "string", "os.path"}
+DirectSingletonKeys == { <<"d1">>, <<"s1">> }        \* "s1" is also a scope under which the models use gin.singleton
+
 (* A configurable descriptor:
      [ sel   : full selector, a sequence of components, e.g. <<"m","f">>
        kind  : "fn" | "cls" | "meth"      (cls/meth: first positional is self)
@@ -69,9 +74,9 @@ CONSTANTS
        body  : "record" | "macro" | "const" | "singleton"
        api   : "configurable" | "external" | "register" ] *)
 
-VARIABLES reg, cfg, stack, okeys, oper, locked, usaved, interactive, singles, consts, hooks, out
+VARIABLES reg, cfg, stack, okeys, oper, locked, usaved, interactive, singles, consts, hooks, imports, out
 
-vars == <<reg, cfg, stack, okeys, oper, locked, usaved, interactive, singles, consts, hooks, out>>
+vars == <<reg, cfg, stack, okeys, oper, locked, usaved, interactive, singles, consts, hooks, imports, out>>
 
 ------------------------------------------------------------------------------
 (* value constructors *)
@@ -410,7 +415,7 @@ NoOut == [op |-> "none"]
 Init ==
   /\ reg \in InitRegs
   /\ cfg = <<>> /\ stack = << <<>> >> /\ okeys = {} /\ oper = {}
-  /\ locked = FALSE /\ usaved = <<>> /\ interactive = FALSE /\ singles = {} /\ consts = {} /\ hooks = <<>>
+  /\ locked = FALSE /\ usaved = <<>> /\ interactive = FALSE /\ singles = {} /\ consts = {} /\ hooks = <<>> /\ imports = {}
   /\ out = NoOut
 
 \* bind_parameter (1032-1078)
@@ -433,7 +438,7 @@ Bind(api, scope, c, p, v) ==
           /\ cfg' = CfgPut(cfg, [scope |-> scope, sel |-> c.sel, param |-> p, val |-> ResolvePct(v)[2]])
           /\ out' = [op |-> "Bind", api |-> api, scope |-> scope, sel |-> c.sel, param |-> p, val |-> v,
                        status |-> "ok", why |-> "ok"]
-  /\ UNCHANGED <<reg, stack, okeys, oper, locked, usaved, interactive, singles, consts, hooks>>
+  /\ UNCHANGED <<reg, stack, okeys, oper, locked, usaved, interactive, singles, consts, hooks, imports>>
 
 \* config_scope (1261-1342): how |-> "name" (one or more components appended),
 \* "list" (replace), "clear" (None / ''), "invalid" (bad name: pushed, then popped by finally)
@@ -451,7 +456,7 @@ EnterScope(how, comps) ==
                            /\ out' = [op |-> "EnterScope", how |-> how, comps |-> comps, status |-> "ok"]
        [] how = "invalid" -> /\ UNCHANGED stack                                \* push, raise, finally: pop
                              /\ out' = [op |-> "EnterScope", how |-> how, comps |-> comps, status |-> "ValueError"]
-  /\ UNCHANGED <<reg, cfg, okeys, oper, locked, usaved, interactive, singles, consts, hooks>>
+  /\ UNCHANGED <<reg, cfg, okeys, oper, locked, usaved, interactive, singles, consts, hooks, imports>>
 
 \* leaving a block, normally or because the body raised: the finally pops (1341-1342)
 ExitScope(byException) ==
@@ -459,7 +464,7 @@ ExitScope(byException) ==
   /\ Len(stack) > 1
   /\ stack' = SubSeq(stack, 1, Len(stack) - 1)
   /\ out' = [op |-> "ExitScope", byException |-> byException, status |-> "ok"]
-  /\ UNCHANGED <<reg, cfg, okeys, oper, locked, usaved, interactive, singles, consts, hooks>>
+  /\ UNCHANGED <<reg, cfg, okeys, oper, locked, usaved, interactive, singles, consts, hooks, imports>>
 
 \* a configurable is called from Python
 CallBody(c, call) ==
@@ -468,7 +473,7 @@ CallBody(c, call) ==
      /\ out' = [op |-> "Call", sel |-> c.sel, pargs |-> call.pargs, ckw |-> call.kw, status |-> r.status,
                 delivered |-> r.delivered, va |-> r.va, kw |-> r.kw,
                 missing |-> r.missing, ran |-> r.ran, ret |-> r.ret, evals |-> r.s.evals]
-  /\ UNCHANGED <<reg, cfg, stack, locked, usaved, interactive, consts, hooks>>
+  /\ UNCHANGED <<reg, cfg, stack, locked, usaved, interactive, consts, hooks, imports>>
 Call(c, call) ==
   /\ "Call" \in Enabled
   /\ c \in reg /\ call \in CallSpaceOf[c]
@@ -477,9 +482,11 @@ Call(c, call) ==
 \* clear_config (1004-1029)
 Clear(clearConstants) ==
   /\ "Clear" \in Enabled
-  /\ cfg' = <<>> /\ okeys' = {} /\ oper' = {} /\ singles' = {} /\ locked' = FALSE
+  /\ cfg' = <<>> /\ okeys' = {} /\ oper' = {} /\ singles' = {} /\ locked' = FALSE /\ imports' = {}
   /\ consts' = IF clearConstants THEN {} ELSE consts
-  /\ out' = [op |-> "Clear", clearConstants |-> clearConstants, status |-> "ok"]
+  \* `had`: which stores held something when clear_config was called (observation only)
+  /\ out' = [op |-> "Clear", clearConstants |-> clearConstants, status |-> "ok",
+             had |-> <<cfg # <<>>, okeys # {}, imports # {}, singles # {}, locked, consts # {}>>]
   /\ UNCHANGED <<reg, stack, usaved, interactive, hooks>>
 
 ------------------------------------------------------------------------------
@@ -568,14 +575,14 @@ Finalize ==
           ELSE /\ cfg' = ApplyAll(cfg, r[2])
                /\ locked' = TRUE
                /\ out' = [op |-> "Finalize", status |-> "ok"]
-  /\ UNCHANGED <<reg, stack, oper, usaved, interactive, singles, consts, hooks>>
+  /\ UNCHANGED <<reg, stack, oper, usaved, interactive, singles, consts, hooks, imports>>
 
 RegisterHook(h) ==
   /\ "RegisterHook" \in Enabled
   /\ h \in HookUniverse /\ \A i \in 1..Len(hooks) : hooks[i].id # h.id
   /\ hooks' = Append(hooks, h)
   /\ out' = [op |-> "RegisterHook", hook |-> h, status |-> "ok"]
-  /\ UNCHANGED <<reg, cfg, stack, okeys, oper, locked, usaved, interactive, singles, consts>>
+  /\ UNCHANGED <<reg, cfg, stack, okeys, oper, locked, usaved, interactive, singles, consts, imports>>
 
 \* unlock_config (2601-2621): the block restores the lock state that held on entry
 UnlockEnter ==
@@ -584,7 +591,7 @@ UnlockEnter ==
   /\ usaved' = Append(usaved, locked)
   /\ locked' = FALSE
   /\ out' = [op |-> "UnlockEnter", status |-> "ok"]
-  /\ UNCHANGED <<reg, cfg, stack, okeys, oper, interactive, singles, consts, hooks>>
+  /\ UNCHANGED <<reg, cfg, stack, okeys, oper, interactive, singles, consts, hooks, imports>>
 
 UnlockExit(byException) ==
   /\ "Unlock" \in Enabled
@@ -592,7 +599,7 @@ UnlockExit(byException) ==
   /\ locked' = usaved[Len(usaved)]
   /\ usaved' = SubSeq(usaved, 1, Len(usaved) - 1)
   /\ out' = [op |-> "UnlockExit", byException |-> byException, before |-> locked, status |-> "ok"]
-  /\ UNCHANGED <<reg, cfg, stack, okeys, oper, interactive, singles, consts, hooks>>
+  /\ UNCHANGED <<reg, cfg, stack, okeys, oper, interactive, singles, consts, hooks, imports>>
 
 \* registering one more (valid) configurable: the lock comes first (1704-1706), then - for a full name that is
 \* already taken by another object - interactive mode decides between rejection and replacement (1719-1725);
@@ -609,7 +616,7 @@ Register(c) ==
           /\ UNCHANGED reg
      ELSE /\ reg' = { e \in reg : e.sel # c.sel } \cup {c}
           /\ out' = [op |-> "Register", conf |-> c, status |-> "ok"]
-  /\ UNCHANGED <<cfg, stack, okeys, oper, locked, usaved, interactive, singles, consts, hooks>>
+  /\ UNCHANGED <<cfg, stack, okeys, oper, locked, usaved, interactive, singles, consts, hooks, imports>>
 
 \* get_bindings (1401-1442): by spelling, optional explicit scope, strict / inherited scopes, raw or resolved
 GetBindings(sp, sc, resolve, inherit) ==
@@ -626,7 +633,7 @@ GetBindings(sp, sc, resolve, inherit) ==
                        ELSE [s |-> MkS(okeys, oper, singles, <<>>), v |-> OSet(kw), e |-> "ok"]
              IN /\ out' = base @@ [status |-> ev.e, result |-> IF ev.e = "ok" THEN ev.v ELSE {}, evals |-> ev.s.evals]
                 /\ okeys' = ev.s.okeys /\ oper' = ev.s.oper /\ singles' = ev.s.singles
-  /\ UNCHANGED <<reg, cfg, stack, locked, usaved, interactive, consts, hooks>>
+  /\ UNCHANGED <<reg, cfg, stack, locked, usaved, interactive, consts, hooks, imports>>
 
 \* a binding made through any spelling of the configurable's name (string key / config text): the spelling is
 \* resolved against the registry as it is *now* (923-925); ambiguous spellings raise KeyError (get_match)
@@ -646,7 +653,7 @@ BindSp(api, scope, sp, p, v) ==
         ELSE /\ HasKey(cfg, scope, r[2].sel, p) \/ Len(cfg) < MaxBindings
              /\ cfg' = CfgPut(cfg, [scope |-> scope, sel |-> r[2].sel, param |-> p, val |-> v])
              /\ out' = base @@ [sel |-> r[2].sel, status |-> "ok", why |-> "ok"]
-  /\ UNCHANGED <<reg, stack, okeys, oper, locked, usaved, interactive, singles, consts, hooks>>
+  /\ UNCHANGED <<reg, stack, okeys, oper, locked, usaved, interactive, singles, consts, hooks, imports>>
 
 \* query_parameter (1081-1115) by spelling
 Query(scope, sp, p) ==
@@ -661,7 +668,7 @@ Query(scope, sp, p) ==
              val |-> IF r[1] = "one" /\ HasKey(cfg, scope, r[2].sel, p)
                      THEN cfg[CHOOSE i \in 1..Len(cfg) : cfg[i].scope = scope /\ cfg[i].sel = r[2].sel /\ cfg[i].param = p].val
                      ELSE <<"none">>]
-  /\ UNCHANGED <<reg, cfg, stack, okeys, oper, locked, usaved, interactive, singles, consts, hooks>>
+  /\ UNCHANGED <<reg, cfg, stack, okeys, oper, locked, usaved, interactive, singles, consts, hooks, imports>>
 
 
 ------------------------------------------------------------------------------
@@ -677,13 +684,31 @@ DefineConstant(name, v, valid) ==
           /\ UNCHANGED consts
      ELSE /\ consts' = { k \in consts : k.name # name } \cup {[name |-> name, val |-> v]}
           /\ out' = [op |-> "DefineConstant", name |-> name, val |-> v, valid |-> valid, status |-> "ok"]
-  /\ UNCHANGED <<reg, cfg, stack, okeys, oper, locked, usaved, interactive, singles, hooks>>
+  /\ UNCHANGED <<reg, cfg, stack, okeys, oper, locked, usaved, interactive, singles, hooks, imports>>
+
+\* a config text consisting of an import statement (2411-2421, 2429-2432): recorded once the parse completes;
+\* nothing is bound, so the lock is not consulted
+ParseImport(m) ==
+  /\ "Import" \in Enabled
+  /\ m \in ImportModules
+  /\ imports' = imports \cup {m}
+  /\ out' = [op |-> "ParseImport", module |-> m, status |-> "ok"]
+  /\ UNCHANGED <<reg, cfg, stack, okeys, oper, locked, usaved, interactive, singles, consts, hooks>>
+
+\* config.singleton_value(key, constructor) called directly (2752-2758): the cache is shared with the gin.singleton
+\* configurable; an existing key is returned, not rebuilt
+SingletonDirect(k) ==
+  /\ "SingletonDirect" \in Enabled
+  /\ k \in DirectSingletonKeys
+  /\ singles' = IF \E x \in singles : x.key = k THEN singles ELSE singles \cup {[key |-> k, obj |-> <<"nonlit", "sd">>]}
+  /\ out' = [op |-> "SingletonDirect", key |-> k, fresh |-> ~(\E x \in singles : x.key = k), status |-> "ok"]
+  /\ UNCHANGED <<reg, cfg, stack, okeys, oper, locked, usaved, interactive, consts, hooks, imports>>
 
 SetInteractive(on) ==
   /\ "Interactive" \in Enabled
   /\ interactive' = on
   /\ out' = [op |-> "SetInteractive", on |-> on, status |-> "ok"]
-  /\ UNCHANGED <<reg, cfg, stack, okeys, oper, locked, usaved, singles, consts, hooks>>
+  /\ UNCHANGED <<reg, cfg, stack, okeys, oper, locked, usaved, singles, consts, hooks, imports>>
 
 
 Next ==
@@ -692,6 +717,8 @@ Next ==
   \/ \E e \in BOOLEAN : ExitScope(e)
   \/ \E c \in Confs, call \in AllCalls : Call(c, call)
   \/ \E cc \in BOOLEAN : Clear(cc)
+  \/ \E m \in ImportModules : ParseImport(m)
+  \/ \E k \in DirectSingletonKeys : SingletonDirect(k)
   \/ Finalize
   \/ \E h \in HookUniverse : RegisterHook(h)
   \/ UnlockEnter
@@ -706,13 +733,13 @@ Next ==
 Spec == Init /\ [][Next]_vars
 
 \* order of bindings is irrelevant when no value holds a reference
-ViewUnordered == <<reg, ToSet(cfg), stack, okeys, oper, locked, usaved, interactive, singles, consts, hooks, out>>
+ViewUnordered == <<reg, ToSet(cfg), stack, okeys, oper, locked, usaved, interactive, singles, consts, hooks, imports, out>>
 \* for invariants that quantify over all calls in a state: only the store and the active scope matter
 ViewStore == <<reg, ToSet(cfg), CurScope>>
 ViewStoreOrdered == <<reg, cfg, CurScope>>
 \* `out` never influences later steps: exhaustive runs that check `out` through action properties drop it
-ViewNoOut == <<reg, cfg, stack, okeys, oper, locked, usaved, interactive, singles, consts, hooks>>
-ViewNoOutUnordered == <<reg, ToSet(cfg), stack, okeys, oper, locked, usaved, interactive, singles, consts, hooks>>
+ViewNoOut == <<reg, cfg, stack, okeys, oper, locked, usaved, interactive, singles, consts, hooks, imports>>
+ViewNoOutUnordered == <<reg, ToSet(cfg), stack, okeys, oper, locked, usaved, interactive, singles, consts, hooks, imports>>
 \* scenario export: the last action's record is part of the view only through what it changed
 ViewUnorderedNoOut == <<reg, cfg, stack, locked, usaved, interactive, consts, hooks, out.op>>
 
@@ -830,7 +857,7 @@ C11_Accept ==
 \* a rejected binding leaves the configuration exactly as it was
 C11_Atomic ==
   [][(out'.op = "Bind" /\ out'.status # "ok") =>
-       UNCHANGED <<reg, cfg, stack, okeys, oper, locked, usaved, interactive, singles, consts, hooks>>]_vars
+       UNCHANGED <<reg, cfg, stack, okeys, oper, locked, usaved, interactive, singles, consts, hooks, imports>>]_vars
 
 \* a non-configurable parameter is never injected: whatever it receives is the caller's or the default
 C11_NeverInjected ==
@@ -878,7 +905,7 @@ C12_LockedIsValidated ==
 C20_Pristine ==
   out.op = "Clear" =>
     /\ out.status = "ok"
-    /\ cfg = <<>> /\ okeys = {} /\ oper = {} /\ singles = {} /\ ~locked
+    /\ cfg = <<>> /\ okeys = {} /\ oper = {} /\ singles = {} /\ ~locked /\ imports = {}
     /\ (out.clearConstants => consts = {})
 
 C20_KeepsRegistryAndConstants ==
